@@ -235,7 +235,7 @@ Definition read_all_dm (s : storage) (k : N) : list rec :=
 Definition read_all (s : storage) (k : N) : list rec := strip_last_del (read_all_dm s k).
 
 (* ---------- operations ---------- *)
-Inductive err := EActiveBlobExists | EActiveBlobDoesntExist | EUninitialized | EIndex | EActiveBlobNotSet | ENoStorage.
+Inductive err := EActiveBlobExists | EActiveBlobDoesntExist | EUninitialized | EIndex | EActiveBlobNotSet | ENoStorage | EAlreadyOpen.
 
 Inductive op :=
 | OWrite (k ts : N) (meta : option N) (msize dlen dseed : N)
@@ -476,7 +476,9 @@ Definition step (s : storage) (o : op) : storage * out :=
   | OCounts => (s, counts s)
   | OClose => (closed_state (do_close s) s, RUnit)
   | ODrop => (closed_state (closed_blobs s ++ match s_active s with Some b => [b] | None => [] end) s, RUnit)
-  | OOpen lazy => (do_open (closed_blobs s) (s_corrupted s) lazy (s_f2 s), RUnit)
+  | OOpen lazy =>
+    (* the script vocabulary opens a directory only while no session is running on it *)
+    if s_open s then (s, RErr EAlreadyOpen) else (do_open (closed_blobs s) (s_corrupted s) lazy (s_f2 s), RUnit)
   | ORmIndex id =>
     let present := existsb (fun b => (b_id b =? id) && match b_idxfile b with Some _ => true | None => false end) (closed_blobs s) in
     (upd_closed s (map (fun o => match o with
